@@ -358,7 +358,14 @@ func (m *ldbManager) Add(transaction Transaction) error {
 	m.changes.Lock()
 	defer m.changes.Unlock()
 
-	frontierIdentifier := GetFrontierIdentifier(db)
+	// the parent must be the frontier of the store itself (db is the view at previous, whose own
+	// frontier always equals previous)
+	snapshot, err := m.ldb.GetSnapshot()
+	if err != nil {
+		return err
+	}
+	frontierIdentifier := GetFrontierIdentifier(NewLevelDBSnapshotWrapper(snapshot).Subset(frontierByte))
+	snapshot.Release()
 
 	if previous == frontierIdentifier {
 		// redo record, undo record and every state key are written in one atomic batch
